@@ -296,6 +296,170 @@ Section RT.
     match X with Ok a => P a | _ => False end -> exists a, X = Ok a /\ P a.
   Proof. destruct X; [eauto|contradiction|contradiction]. Qed.
 
+  (* ---------- the written tree and the reader's run over it, for any lib section ---------- *)
+  Definition glyph_kids (g : glyph) (libn : list node) : list node :=
+    map (fun c => Empty (s2l "unicode") [(k_hex, fh c)]) (gcps g) ++
+    (if fl_nonzero (gwidth g) || fl_nonzero (gheight g)
+     then [Empty (s2l "advance")
+             (cond_attr (fl_nonzero (gheight g)) k_height (ff (gheight g)) ++
+              cond_attr (fl_nonzero (gwidth g)) k_width (ff (gwidth g)))]
+     else []) ++
+    (match gimage g with Some i => [enc_image ff ff3 i] | None => [] end) ++
+    enc_outline ff (gcontours g) (gcomps g) ++
+    map (enc_anchor ff ff3) (ganchors g) ++ map (enc_guideline ff ff3) (gguides g) ++
+    libn ++
+    (match gnote g with Some n => [Elem (s2l "note") [] (text_kids n)] | None => [] end).
+  Definition glyph_tree (g : glyph) (libn : list node) : node :=
+    Elem (s2l "glyph") [(k_name, gname g); (k_format, s2l "2")] (glyph_kids g libn).
+  Lemma encode_tree g :
+    encode_glif ff ff3 fi fh o g = bind (enc_lib ff fi o g) (fun libn => Ok (glyph_tree g libn)).
+  Proof. reflexivity. Qed.
+
+  Definition st0 (g : glyph) : pst := mkPst (glyph_new (gname g)) [] false false false false.
+
+  Lemma parse_glif_tree g libn :
+    glyph_rules g -> forallb is_element libn = true ->
+    parse_glif pf (written_doc (glyph_tree g libn))
+    = bind (parse_children pf 2 (st0 g) (glyph_kids g libn)) (fun st => load_object_libs (st_g st)).
+  Proof.
+    intros (RN & _ & _ & _ & _ & _ & _ & RCo & _) EL.
+    unfold parse_glif, written_doc, glyph_tree. cbn [tview find_root]. change (ekind_of (s2l "glyph")) with (Some KGlyph). cbn [bind].
+    assert (PS : parse_start pf [(k_name, gname g); (k_format, s2l "2")] = Ok (gname g, 2)).
+    { unfold parse_start. cbn [attr_loop andb]. change (has_key k_name []) with false.
+      change (lookup k_name (arms KGlyph)) with (Some AName). cbn [parse_val]. rewrite RN. cbn [bind app attr_loop andb].
+      replace (has_key k_format [(k_name, VName (gname g))]) with false by (vm_compute; reflexivity).
+      change (lookup k_format (arms KGlyph)) with (Some AU32). cbn [parse_val].
+      replace (parse_u32 (s2l "2")) with (Some 2) by (vm_compute; reflexivity). cbn [bind app attr_loop].
+      unfold get_name. cbn [lookup]. rewrite str_eqb_refl.
+      replace (str_eqb k_format k_name) with false by (vm_compute; reflexivity). rewrite str_eqb_refl.
+      replace (str_eqb k_formatMinor k_name) with false by (vm_compute; reflexivity).
+      replace (str_eqb k_formatMinor k_format) with false by (vm_compute; reflexivity). reflexivity. }
+    rewrite PS. cbn [bind].
+    assert (TV : tview (glyph_kids g libn) = glyph_kids g libn).
+    { apply tview_elements. unfold glyph_kids. rewrite !forallb_app. repeat (apply andb_true_iff; split).
+      - apply map_elements. reflexivity.
+      - destruct (fl_nonzero (gwidth g) || fl_nonzero (gheight g)); reflexivity.
+      - destruct (gimage g); reflexivity.
+      - unfold enc_outline. rewrite (filter_has_points _ RCo). destruct (gcontours g), (gcomps g); reflexivity.
+      - apply map_elements. reflexivity.
+      - apply map_elements. reflexivity.
+      - exact EL.
+      - destruct (gnote g); reflexivity. }
+    rewrite TV. reflexivity.
+  Qed.
+
+  (** the glyph the reader has assembled when it reaches </glyph>: everything but the object libs *)
+  Definition body_ok (g : glyph) (d' : dict) (g1 : glyph) : Prop :=
+    gname g1 = gname g /\ gwidth g1 = zero_norm (gwidth g) /\ gheight g1 = zero_norm (gheight g) /\
+    gcps g1 = gcps g /\ gnote g1 = gnote g /\ oimage_rel (gimage g) (gimage g1) /\
+    Forall2 guide_rel (gguides g) (gguides g1) /\ Forall2 anchor_rel (ganchors g) (ganchors g1) /\
+    gcomps g1 = map comp_written (gcomps g) /\ gcontours g1 = map contour_written (gcontours g) /\
+    glib g1 = d'.
+
+  Lemma roundtrip_body g libn d' :
+    glyph_rules g -> glyph_finite g -> note_survives (gnote g) = true ->
+    (forall st, st_lib st = false -> glib (st_g st) = [] ->
+       exists b, parse_children pf 2 st libn
+                 = Ok (mkPst (set_lib (st_g st) d') (st_seen st) (st_adv st) b (st_out st) (st_note st))) ->
+    exists st, parse_children pf 2 (st0 g) (glyph_kids g libn) = Ok st /\ body_ok g d' (st_g st).
+  Proof.
+    intros (RN & RC1 & RC2 & RI & RG & RA & RK & RCo & RID) (Fw & Fh & Fi & Fg & Fa & Fk & Fc) NS HLIB.
+    apply ok_ex.
+    (* identifiers: the reader meets contours, components, anchors, guidelines *)
+    rewrite glyph_ids_eq in RID.
+    set (A := gaids (ganchors g)) in *. set (G := ggids (gguides g)) in *.
+    set (C := flat_map gcids (gcontours g)) in *. set (K := gkids (gcomps g)) in *.
+    assert (NCK : NoDup (C ++ K)).
+    { rewrite app_assoc in RID. apply NoDup_app_inv in RID. apply RID. }
+    assert (NA : NoDup A) by (apply NoDup_app_inv in RID; apply RID).
+    assert (NG : NoDup G).
+    { apply NoDup_app_inv in RID as (_ & R & _). apply NoDup_app_inv in R. apply R. }
+    assert (DA : forall i, In i A -> ~ In i (C ++ K)).
+    { apply NoDup_app_inv in RID as (_ & _ & R). intros i Hi Hin. apply (R i Hi). apply in_app_iff. right; exact Hin. }
+    assert (DG : forall i, In i G -> ~ In i A /\ ~ In i (C ++ K)).
+    { intros i Hi. split.
+      - apply NoDup_app_inv in RID as (_ & _ & R). intros Hin. apply (R i Hin). apply in_app_iff. left; exact Hi.
+      - apply NoDup_app_inv in RID as (_ & R & _). apply NoDup_app_inv in R as (_ & _ & R). apply R; exact Hi. }
+    unfold glyph_kids, st0.
+    (* code points *)
+    rewrite parse_children_app, step_unicodes by exact RC2.
+    cbn [bind glyph_new upd_g set_cps st_g st_seen st_adv st_lib st_out st_note gcps].
+    rewrite (codepoints_order_preserved _ RC1 []) by (intros ? _ []). cbn [app].
+    (* advance *)
+    rewrite parse_children_app.
+    match goal with |- context [parse_children pf 2 ?st (if ?b then [?x] else [])] =>
+      assert (EA : parse_children pf 2 st (if b then [x] else [])
+                   = Ok (mkPst (set_adv (st_g st) (zero_norm (gwidth g)) (zero_norm (gheight g)))
+                               (st_seen st) b (st_lib st) (st_out st) (st_note st)))
+    end.
+    { destruct (fl_nonzero (gwidth g) || fl_nonzero (gheight g)) eqn:EB; cbn [parse_children].
+      - rewrite step_advance by (try reflexivity; assumption). reflexivity.
+      - apply orb_false_iff in EB as [E1 E2]. unfold zero_norm. rewrite E1, E2. reflexivity. }
+    rewrite EA. clear EA. cbn [bind st_g st_seen st_adv st_lib st_out st_note set_adv].
+    (* image *)
+    rewrite parse_children_app.
+    match goal with |- context [parse_children pf 2 ?st (match gimage g with Some i => [?f i] | None => [] end)] =>
+      set (stI := st);
+      assert (EI : exists oi, oimage_rel (gimage g) oi /\
+                   parse_children pf 2 stI (match gimage g with Some i => [f i] | None => [] end)
+                   = Ok (upd_g stI (set_image (st_g stI) oi)))
+    end.
+    { destruct (gimage g) as [i|]; cbn [parse_children].
+      - destruct (step_image i stI eq_refl RI Fi) as (i' & REL & ->). exists (Some i'). split; [exact REL|reflexivity].
+      - exists None. split; [exact I|]. subst stI. reflexivity. }
+    destruct EI as (oi & RELI & ->). subst stI. cbn [bind upd_g st_g st_seen st_adv st_lib st_out st_note set_image].
+    (* outline *)
+    rewrite parse_children_app.
+    match goal with |- context [parse_children pf 2 ?st (enc_outline ff (gcontours g) (gcomps g))] =>
+      assert (EO : exists b, parse_children pf 2 st (enc_outline ff (gcontours g) (gcomps g))
+                   = Ok (mkPst (set_outline (st_g st) (ganchors (st_g st)) (map comp_written (gcomps g))
+                                            (map contour_written (gcontours g)))
+                               (rev (C ++ K) ++ st_seen st) (st_adv st) (st_lib st) b (st_note st)))
+    end.
+    { assert (S1 : enc_outline ff (gcontours g) (gcomps g)
+                   = if match gcontours g, gcomps g with [], [] => true | _, _ => false end then []
+                     else [Elem (s2l "outline") [] (map (enc_contour ff) (gcontours g) ++ map (enc_component ff) (gcomps g))]).
+      { unfold enc_outline. rewrite (filter_has_points _ RCo). destruct (gcontours g), (gcomps g); reflexivity. }
+      rewrite S1. destruct (match gcontours g, gcomps g with [], [] => true | _, _ => false end) eqn:EE.
+      - destruct (gcontours g) eqn:E1, (gcomps g) eqn:E2; try discriminate. exists false. subst C K.
+        reflexivity.
+      - exists true. cbn [parse_children]. rewrite step_outline; auto; try reflexivity; try (intros ? _ []). }
+    destruct EO as (bo & ->). cbn [bind st_g st_seen st_adv st_lib st_out st_note set_outline ganchors gguides app].
+    rewrite app_nil_r.
+    (* anchors *)
+    rewrite parse_children_app.
+    match goal with |- context [parse_children pf 2 ?st (map (enc_anchor ff ff3) _)] =>
+      destruct (step_anchors (ganchors g) st RA Fa NA) as (an' & RELA & ->) end.
+    { cbn [st_seen]. intros i Hi Hin. apply in_rev in Hin. exact (DA i Hi Hin). }
+    cbn [bind st_g st_seen st_adv st_lib st_out st_note set_anchors ganchors gguides app].
+    (* guidelines *)
+    rewrite parse_children_app.
+    match goal with |- context [parse_children pf 2 ?st (map (enc_guideline ff ff3) _)] =>
+      destruct (step_guides (gguides g) st RG Fg NG) as (gu' & RELG & ->) end.
+    { cbn [st_seen]. intros i Hi Hin. destruct (DG i Hi) as [D1 D2]. apply in_app_iff in Hin as [Hin|Hin].
+      - apply in_rev in Hin. exact (D1 Hin).
+      - apply in_rev in Hin. exact (D2 Hin). }
+    cbn [bind st_g st_seen st_adv st_lib st_out st_note set_guides ganchors gguides app parse_children].
+    (* lib *)
+    rewrite parse_children_app.
+    match goal with |- context [parse_children pf 2 ?st libn] =>
+      destruct (HLIB st eq_refl eq_refl) as (bl & ->) end.
+    cbn [bind st_g st_seen st_adv st_lib st_out st_note set_lib].
+    (* note *)
+    match goal with |- context [parse_children pf 2 ?st (match gnote g with Some _ => _ | None => [] end)] =>
+      assert (EN : parse_children pf 2 st
+                     (match gnote g with Some n => [Elem (s2l "note") [] (text_kids n)] | None => [] end)
+                   = Ok (mkPst (set_note (st_g st) (gnote g)) (st_seen st) (st_adv st) (st_lib st) (st_out st)
+                               (match gnote g with Some _ => true | None => false end)))
+    end.
+    { destruct (gnote g) as [n|] eqn:EN; cbn [parse_children].
+      - rewrite step_note by (try reflexivity; exact NS). reflexivity.
+      - reflexivity. }
+    rewrite EN. clear EN. cbn [bind upd_g st_g set_note].
+    cbv iota. unfold body_ok. cbn [st_g gname gwidth gheight gcps gnote gimage gguides ganchors gcomps gcontours glib].
+    repeat split; auto.
+  Qed.
+
   Theorem roundtrip_libfree g :
     glyph_rules g -> glyph_finite g -> lib_free g -> note_survives (gnote g) = true ->
     exists t g',
